@@ -6,11 +6,17 @@ SymReal / SymBool / SymStr objects that build z3 terms; every Python-level
 truth test of a symbolic boolean asks the solver which sides are feasible and
 forks.  Exploration is depth first by re-execution with a decision prefix.
 """
+import sys
 import time
 import hashlib
 from fractions import Fraction
 
 import z3
+
+# exact rationals in the path condition can have thousands of digits (products of many symbolic-free factors);
+# python >= 3.11 refuses to render those by default
+if hasattr(sys, "set_int_max_str_digits"):
+    sys.set_int_max_str_digits(0)
 
 
 # --------------------------------------------------------------------------
